@@ -58,14 +58,15 @@ def _run_variant(args):
                     stream.write(_ast.unparse(_ast.parse(src)) + "\n")
             keys, errors = _keys(prop, tmp)
             return (v.name, "ran", ";".join(errors), keys)
-        if v.module == "*rename":   # every renamable local variable of every function gets a meaningless name
+        if v.module in ("*rename", "*ifswap", "*nest"):   # whole-tree behaviour-preserving refactorings (sa/refactor.py)
             import glob as _glob
-            from .refactor import rename_locals
+            from . import refactor
+            transform = {"*rename": refactor.rename_locals, "*ifswap": refactor.swap_if_else, "*nest": refactor.nest_after_early_exit}[v.module]
             for path in _glob.glob(os.path.join(tmp, "pyrefact", "*.py")):
                 with open(path, encoding="utf-8") as stream:
                     src = stream.read()
                 with open(path, "w", encoding="utf-8") as stream:
-                    stream.write(rename_locals(src))
+                    stream.write(transform(src))
             keys, errors = _keys(prop, tmp)
             return (v.name, "ran", ";".join(errors), keys)
         for module, old, new in [(v.module, v.old, v.new)] + list(v.extra or []):
@@ -97,6 +98,8 @@ def run(prop: str, seed: int = 0, only: Optional[str] = None, verbose: bool = Fa
     variants: List[Variant] = list(getattr(mod, "VARIANTS", []))
     variants.append(Variant("unparse-round-trip-of-every-module", "SILENT", "*", "", ""))
     variants.append(Variant("every-local-variable-renamed", "SILENT", "*rename", "", ""))
+    variants.append(Variant("every-if-else-swapped-with-negated-test", "SILENT", "*ifswap", "", ""))
+    variants.append(Variant("early-exits-turned-into-nesting", "SILENT", "*nest", "", ""))
     if only:
         variants = [v for v in variants if only in v.name]
     random.Random(seed).shuffle(variants)
@@ -140,7 +143,7 @@ def run(prop: str, seed: int = 0, only: Optional[str] = None, verbose: bool = Fa
                 summary["failed"] += 1
                 verdict = f"FAILED: not reported; new keys {new[:3]}"
         else:
-            if v.module in ("*", "*rename") and gone:
+            if v.module.startswith("*") and gone:
                 failures.append(f"round trip changed the verdicts: findings no longer reported {gone[:3]}")
                 summary["failed"] += 1
                 verdict = f"FAILED: verdicts changed {gone[:3]}"
